@@ -653,7 +653,11 @@ def cli_stage(ctx, rng, quick, binp, docs):
             problems.append("--export-area-page wrote no readable PNG (exit %s: %s)" % (r2[0], r2[2][:120]))
         elif pg['size'] != pg['expected_size']:
             problems.append("--export-area-page image is %s, the page is %s" % (pg['size'], pg['expected_size']))
-        elif pg['ref_ok'] and min(r['expected_size']) >= 4 and 'filter' not in source_text(d) and not re.search(r"<mask\b[^>]*\smask=", source_text(d)):
+        elif pg['ref_ok'] and min(r['expected_size']) >= 4 and 'filter' not in source_text(d) and not re.search(r"<mask\b[^>]*\smask=", source_text(d)) \
+                and not ('<pattern' in source_text(d) and re.search(r"stroke\s*[=:]\s*\"?\s*(url\(|context-)", source_text(d))):
+            # (pattern-painted hairline strokes: which pixels of a 1-px stroke fall into the transparent half of a tile depends on the
+            #  sub-pixel phase, and the CLI places the node at truncated coordinates: painting/context/with-pattern-in-use.svg, extent
+            #  rows 19..180 vs 20..174 with identical boxes; bit-exactness against render_node is still checked above)
             # (a mask that has its own `mask`: OPEN CANDIDATE reported to the coordinator - corpus/witness/C19-mask-on-mask-export.svg:
             #  `--export-id g1 --export-area-page` paints rows 31..99, the full rendering and render_node placed on a page-sized
             #  canvas paint 31..107; render_node into the box-sized canvas is bit-identical to the CLI, so the effect is inside
